@@ -358,3 +358,102 @@ EXPLANATION = "under construction"
 ASSUMPTIONS = []
 TRUSTED = []
 BOUNDED = [{"name": "restricted-and-registered-types", "script": "bounded/b20_scalar_types.py"}]
+
+
+# ------------------------------------------------------------------------------------------------ the registry: register_type / get_registered_type / is_value_of_type
+def rt_setup(ctx):
+    state = ["not-registered", "registered-same", "registered-different"][ctx.choose(3, "registry")]
+    fail_flag = ["omitted", "True", "False"][ctx.choose(3, "fail_already_registered")]
+    key = [None, ("name", "pattern")][ctx.choose(2, "uniqueness_key")]
+    module_flag = [None, False][ctx.choose(2, "module-level-_fail_already_registered")]
+    T, ser, de = Rec("the type"), Rec("serializer"), Rec("deserializer")
+    old_same = Rec("RegisteredType", attrs={"type_class": T, "serializer": ser, "base_deserializer": de})
+    old_diff = Rec("RegisteredType", attrs={"type_class": T, "serializer": Rec("other serializer"), "base_deserializer": de})
+    handlers = {} if state == "not-registered" else {T: old_same if state == "registered-same" else old_diff}
+    types = {}
+    made = []
+
+    def new_handler(c, a, k):
+        r = Rec("RegisteredType", attrs={"type_class": a[0], "serializer": a[1], "base_deserializer": a[2] if a[2] is not None else a[0], "deserializer_exceptions": a[3], "type_check": a[4]})
+        r.methods["__eq__"] = lambda c2, s2, a2, k2: all(s2.attrs[x] is a2[0].attrs[x] for x in ("type_class", "serializer", "base_deserializer"))
+        made.append(r)
+        return r
+
+    calls = {"RegisteredType": new_handler, "get_registered_type": lambda c, a, k: handlers.get(a[0]), "globals": lambda c, a, k: ({"_fail_already_registered": module_flag} if module_flag is not None else {})}
+    env = {"type_class": T, "serializer": ser, "deserializer": de, "uniqueness_key": key, "deserializer_exceptions": (), "type_check": Rec("type_check")}
+    if fail_flag != "omitted":
+        env["fail_already_registered"] = fail_flag == "True"
+    return Setup(env=env, calls=calls, consts={"registered_type_handlers": handlers, "registered_types": types},
+                 data=dict(state=state, fail=(fail_flag != "False") if module_flag is None else module_flag, key=key, T=T, handlers=handlers, types=types, made=made, old=handlers.get(T), ser=ser, de=de))
+
+
+def rt_post(ctx, st, result):
+    d = st.data
+    tag = f"[{d['state']},fail_already_registered={d['fail']},key={'given' if d['key'] else None}]"
+    h = d["handlers"].get(d["T"])
+    conflict = d["state"] == "registered-different" and d["fail"] and not d["key"]
+    ctx.oblige("post", "a-type-already-registered-with-another-serializer/deserializer-is-not-silently-re-registered(when failing is asked for)" + tag, not conflict)
+    if d["state"] == "registered-same" and d["fail"] and not d["key"]:
+        ctx.oblige("post", "registering-the-same-handlers-again-changes-nothing" + tag, h is d["old"])
+    else:
+        ctx.oblige("post", "afterwards-the-type-is-handled-by-exactly-the-given-serializer-and-deserializer" + tag,
+                   h is not None and h is d["made"][0] and h.attrs["serializer"] is d["ser"] and h.attrs["base_deserializer"] is d["de"])
+    ctx.oblige("post", "a-uniqueness-key-is-recorded-iff-given" + tag, d["types"] == ({d["key"]: d["T"]} if d["key"] else {}))
+
+
+def rt_raises(ctx, st, exc):
+    d = st.data
+    ctx.oblige("raises", f"ValueError-exactly-for-a-conflicting-re-registration(got {exc.cls})", exc.cls == "ValueError" and d["state"] == "registered-different" and d["fail"] and not d["key"] and d["handlers"].get(d["T"]) is d["old"])
+
+
+def grt_setup(ctx):
+    state = ["registered", "pending-on-first-use", "unknown", "no-import-path"][ctx.choose(4, "type")]
+    T = Rec("the type")
+    handler = Rec("RegisteredType")
+    handlers = {T: handler} if state == "registered" else {}
+    pending = {}
+    if state == "pending-on-first-use":
+        from pyvc.engine import Fn
+        pending["pkg.T"] = Fn(lambda c, a, k: (c.event("registered-now"), handlers.__setitem__(T, handler))[1], "pending registration")
+
+    def get_import_path(c, a, k):
+        if state == "no-import-path":
+            raise PyRaise(ExcVal("ValueError", origin="get_import_path"))
+        return "pkg.T"
+
+    from contracts.adapt_arms import suppress_cm
+    from pyvc.engine import ClassRef
+    return Setup(env={"type_class": T}, calls={"get_import_path": get_import_path}, consts={"registered_type_handlers": handlers, "registration_pending": pending, "AttributeError": ClassRef("AttributeError"), "ValueError": ClassRef("ValueError")},
+                 cms={"suppress": suppress_cm()}, data=dict(state=state, handler=handler, pending=pending))
+
+
+def grt_post(ctx, st, result):
+    d = st.data
+    want = d["handler"] if d["state"] in ("registered", "pending-on-first-use") else None
+    ctx.oblige("post", f"the-handler-of-the-type(a registration pending on first use is performed now,once),else-None[{d['state']}]", result is want and not d["pending"]
+               and len([e for e in ctx.events if e[0] == "registered-now"]) == (1 if d["state"] == "pending-on-first-use" else 0))
+
+
+def ivt_setup(ctx):
+    from pyvc.engine import Fn
+    T, v = Rec("the type"), Rec("value")
+    answer = z3.Bool("type_check(value, type)")
+    self = Rec("RegisteredType", attrs={"type_class": T, "type_check": Fn(lambda c, a, k: (c.event("type_check", a[0], a[1]), answer)[1], "type_check")})
+    return Setup(env={"self": self, "value": v}, data=dict(T=T, v=v, answer=answer))
+
+
+def ivt_post(ctx, st, result):
+    d = st.data
+    ev = [e for e in ctx.events if e[0] == "type_check"]
+    ctx.oblige("post", "a-value-is-of-the-type-iff-the-registered-type_check-says-so-for-(value, type)", result is d["answer"] and len(ev) == 1 and ev[0][1] is d["v"] and ev[0][2] is d["T"])
+
+
+def no_exc20(ctx, st, exc):
+    ctx.oblige("raises", f"no-own-exception(got {exc.cls}@{exc.origin})", False)
+
+
+UNITS += [
+    Unit("C20", "jsonargparse.typing:register_type", rt_setup, rt_post, rt_raises, expect_cover=("return", "raise:ValueError"), trusted=["RegisteredType.__eq__ compares type, serializer and deserializer"]),
+    Unit("C20", "jsonargparse.typing:get_registered_type", grt_setup, grt_post, no_exc20, trusted=["get_import_path: its own unit (C14)"]),
+    Unit("C20", "jsonargparse.typing:RegisteredType.is_value_of_type", ivt_setup, ivt_post, no_exc20),
+]
